@@ -70,6 +70,7 @@ TEMPLATES = [
      'patternTransform="rotate(5)"><circle id="pc" r="1" fill="red"/></pattern>'
      '<symbol id="sym" viewBox="0 0 10 10"><rect id="sr" width="10" height="10" fill="#333"/></symbol></defs>'
      '<rect id="r0" x="1" y="1" width="10%%" height="25%%" fill="url(#pat)"/>'
+     '<rect id="r1" x="2" y="2" width="4" height="4" fill="#123" fill-opacity="0.5" stroke="#00f" stroke-opacity="0.25" opacity="0.9"/>'
      '<text id="t1" x="3" y="30" dx="1" dy="1" font-size="4" fill="#456" stroke="none" transform="translate(1,2)">txt'
      '<tspan id="ts1" x="5" y="5" fill="red" transform="scale(2)">span</tspan></text>'
      '<image id="i1" x="2" y="2" width="10" height="10" transform="rotate(3)" preserveAspectRatio="xMinYMin slice" xlink:href="none.png"/>'
@@ -88,12 +89,13 @@ MENU = {
                                                  "rotate", "skew", "skewX", "skewY")
                     for a in ("x", " ", "1 x 2", "1e999", "nan", "1em", "-", "1 2 3 4 5 6 7 8")],
     "color": ["rgb(1.5,2,3)", "rgb(1,2)", "#12", "#ggg", "hsl(x,1%,1%)", "", "url(#nope)", "notacolor", "rgb(300,-5,2)",
-              "#1234567", "hsl(10,20,30)"],
+              "#1234567", "hsl(10,20,30)", "rgb(1e999%,2%,3%)", "rgba(1,2,3,1e999)", "hsl(1e999,1e999%,-1e999%)",
+              "rgb(99999999999999999999,1,1)", "rgb(nan,1,1)", "rgb(1,2,3,)", "rgb(,,)", "hsl()", "#", "url(", "currentColor x"],
     "length": ["abc", "", "-5", "1e999", "5 5", "nan", "1e-400", "%", "10%%", "1em", "inf", "0x10", "1e", "+", "--1", "1pxpx", "."],
     "points": ["1", "1,2 3", "a,b", "", "1,2,3", "1e999,2 3,4", "1 2 3 4 5"],
     "viewbox": ["0 0 0 0", "a b", "0 0 10", "0 0 -5 5", "", "0,0,1e999,5", "1 2 3 4 5"],
     "par": ["xMidYMid slice meet", "bogus", "", "none slice", "xmidymid", "slice"],
-    "opacity": ["abc", "", "-1", "2", "50%"],
+    "opacity": ["abc", "", "-1", "2", "50%", "1e999", "-1e999", "nan", "inf"],
     "display": ["", "NONE", "bogus"],
     "other": ["", "é", "url(#nope)"],
 }
